@@ -511,6 +511,24 @@ pub unsafe extern "C" fn waitpid(pid: pid_t, status: *mut c_int, flags: c_int) -
         log(k::WAIT4, [pid as i64, flags as i64, 0, 0], -1, d.fail, 1);
         return -1;
     }
+    if on && flags & libc::WNOHANG == 0 && pid > 0 && pid == vclock::NEVER_EXITS_PID.load(std::sync::atomic::Ordering::SeqCst) {
+        // a wait without WNOHANG on a child that is known never to exit: it would never return
+        vclock::BLOCKING_WAITS_ON_NEVER_EXITING.fetch_add(1, std::sync::atomic::Ordering::SeqCst);
+        set_errno(plan::ABORT_ERRNO);
+        log(k::WAIT4, [pid as i64, flags as i64, 0, 0], -1, plan::ABORT_ERRNO, 1);
+        return -1;
+    }
+    if on && vclock::pure() && flags & libc::WNOHANG == 0 && pid > 0 && pid == vclock::EXIT_PID.load(std::sync::atomic::Ordering::SeqCst) {
+        // a wait without WNOHANG on a child whose exit is planned on the deterministic clock sleeps until then
+        let at = vclock::EXIT_AT.load(std::sync::atomic::Ordering::SeqCst);
+        if at != 0 {
+            let now = vclock::now_ns() as i64;
+            if at > now {
+                vclock::advance(at - now);
+            }
+            vclock::fire_exit();
+        }
+    }
     let r = r_waitpid()(pid, status, flags);
     if on {
         let e = errno();
